@@ -433,6 +433,7 @@ func (g *VGroup) sendSnap(id uint64) bool {
 	}
 	g.send(p, &pb.Message{Type: pb.MsgSnap.Enum(), Snapshot: s})
 	g.c.stats.probe("v_snapshot_sent")
+	g.c.stats.probe("snapshot_sent")
 	return true
 }
 
